@@ -86,9 +86,19 @@ def gen(rng, tier):
                                 else col for col in new["columns"]]}
         for col in new_frac["columns"]:
             col.pop("dtype", None) if col["name"] == "z" else None
+        # the prediction frame of the I-cat pairs holds f, o, c as pandas Categoricals that declare the training
+        # levels in ANOTHER order (a frame that went through a file with its own category list)
+        def _recat(col):
+            if col["name"] not in ("f", "o", "c"):
+                return col
+            lv = gen_dm.frame_levels(fr, col["name"]) if col["name"] != "c" else sorted(set(next(
+                x for x in fr["columns"] if x["name"] == "c")["values"]))
+            perm_ = lv[1:] + lv[:1] if rng.random() < 0.5 else list(reversed(lv))
+            return dict(col, type="cat", categories=perm_)
+        new_cat = {"columns": [_recat(col) for col in new["columns"]]}
         for a, b, kind in _pairs(rng, fr):
-            cases.append({"formula": a, "alias": b, "frame": fr, "new": new_frac if kind == "I-int" else new, "kind": kind,
-                          "na": "drop"})
+            nf = new_frac if kind == "I-int" else (new_cat if kind == "I-cat" and rng.random() < 0.6 else new)
+            cases.append({"formula": a, "alias": b, "frame": fr, "new": nf, "kind": kind, "na": "drop"})
     return cases
 
 
